@@ -723,11 +723,322 @@ def extract_ref_impls():
 
 
 
+# ----------------------------------------------------------------------------- Exprs (bit-level expressions, translated)
+
+# ---------------------------------------------------------------- locating expressions
+
+def block_end(toks, i):
+    """index just after the block that opens at toks[i] (one of ( [ { )."""
+    depth = 0
+    j = i
+    while True:
+        t = toks[j][1]
+        if t in OPEN:
+            depth += 1
+        elif t in OPEN.values():
+            depth -= 1
+            if depth == 0:
+                return j + 1
+        j += 1
+
+
+def impl_blocks(toks, header_pred):
+    """yield (start, end) token ranges of the bodies of `impl ... {` blocks whose header tokens satisfy header_pred."""
+    i = 0
+    n = len(toks)
+    while i < n:
+        if toks[i][1] == "impl":
+            j = i
+            while toks[j][1] != "{":
+                j += 1
+            header = [t for (_, t) in toks[i:j]]
+            e = block_end(toks, j)
+            if header_pred(header):
+                yield (j + 1, e - 1)
+            i = j + 1
+        else:
+            i += 1
+
+
+def fn_body(toks, lo, hi, name):
+    """token range of the body of `fn name` inside [lo, hi)."""
+    i = lo
+    while i < hi:
+        if toks[i][1] == "fn" and toks[i + 1][1] == name:
+            j = i
+            while toks[j][1] != "{":
+                j += 1
+            return (j + 1, block_end(toks, j) - 1)
+        i += 1
+    raise ExtractError(f"fn {name} not found")
+
+
+def let_init(toks, lo, hi, var):
+    """tokens of <expr> in `let var[: T] = <expr>;` inside [lo, hi)."""
+    i = lo
+    while i < hi:
+        if toks[i][1] == "let" and toks[i + 1][1] == var:
+            j = i
+            while toks[j][1] != "=":
+                j += 1
+            e = j + 1
+            depth = 0
+            while not (toks[e][1] == ";" and depth == 0):
+                if toks[e][1] in OPEN:
+                    depth += 1
+                if toks[e][1] in OPEN.values():
+                    depth -= 1
+                e += 1
+            return [t for (_, t) in toks[j + 1:e]]
+        i += 1
+    raise ExtractError(f"let {var} not found")
+
+
+def call_arg(toks, lo, hi, path):
+    """tokens of the single argument of the first call `path(…)` inside [lo, hi); path = list of tokens."""
+    i = lo
+    n = len(path)
+    while i < hi:
+        if [t for (_, t) in toks[i:i + n]] == path and toks[i + n][1] == "(":
+            e = block_end(toks, i + n)
+            return [t for (_, t) in toks[i + n + 1:e - 1]]
+        i += 1
+    raise ExtractError(f"call {' '.join(path)} not found")
+
+
+def tail_expr(toks, lo, hi):
+    """the whole body as an expression (single-expression fn), comments already stripped."""
+    return [t for (_, t) in toks[lo:hi]]
+
+
+def match_scrutinee(toks, lo, hi):
+    """tokens of <expr> in the first `match <expr> {` inside [lo, hi)."""
+    i = lo
+    while i < hi:
+        if toks[i][1] == "match":
+            j = i + 1
+            while toks[j][1] != "{":
+                j += 1
+            return [t for (_, t) in toks[i + 1:j]]
+        i += 1
+    raise ExtractError("match not found")
+
+# ---------------------------------------------------------------- parsing (Rust precedence)
+
+BIN = [("||",), ("&&",), ("==", "!=", "<", ">", "<=", ">="), ("|",), ("^",), ("&",), ("<<", ">>"), ("+", "-"), ("*", "/", "%")]
+
+
+class P:
+    def __init__(self, toks):
+        self.t = toks
+        self.i = 0
+
+    def peek(self):
+        return self.t[self.i] if self.i < len(self.t) else None
+
+    def take(self):
+        x = self.t[self.i]
+        self.i += 1
+        return x
+
+    def expr(self, lvl=0):
+        if lvl == len(BIN):
+            return self.cast()
+        a = self.expr(lvl + 1)
+        while self.peek() in BIN[lvl]:
+            op = self.take()
+            b = self.expr(lvl + 1)
+            a = ("bin", op, a, b)
+        return a
+
+    def cast(self):
+        a = self.unary()
+        while self.peek() == "as":
+            self.take()
+            ty = self.take()
+            a = ("as", ty, a)
+        return a
+
+    def unary(self):
+        if self.peek() == "!":
+            self.take()
+            return ("not", self.unary())
+        return self.postfix()
+
+    def postfix(self):
+        a = self.atom()
+        while True:
+            if self.peek() == "." and self.i + 1 < len(self.t):
+                nxt = self.t[self.i + 1]
+                if re.fullmatch(r"[0-9]+", nxt) or (re.fullmatch(r"[a-z_][a-z0-9_]*", nxt) and (self.i + 2 >= len(self.t) or self.t[self.i + 2] != "(")):
+                    self.take()
+                    f = self.take()
+                    a = ("field", a, f)
+                    continue
+                if nxt in ("into", "get") and self.t[self.i + 2] == "(" and self.t[self.i + 3] == ")":
+                    # `.into()` (widening) and NonZero `.get()`: the same number
+                    self.i += 4
+                    continue
+            return a
+
+    def atom(self):
+        t = self.take()
+        if t == "(":
+            a = self.expr()
+            if self.take() != ")":
+                raise ExtractError("expected )")
+            return a
+        if re.fullmatch(r"[0-9][0-9_]*(u8|u32|u64|usize)?", t):
+            return ("lit", int(re.sub(r"(u8|u32|u64|usize)$", "", t).replace("_", "")))
+        if t == "Into" and self.t[self.i:self.i + 7][0] == "::":
+            # Into::<u32>::into(e)
+            j = self.i
+            while self.t[j] != "(":
+                j += 1
+            self.i = j + 1
+            a = self.expr()
+            if self.take() != ")":
+                raise ExtractError("expected ) after Into::into")
+            return a
+        if re.fullmatch(r"[A-Za-z_][A-Za-z0-9_]*", t):
+            return ("var", t)
+        raise ExtractError(f"unsupported token {t!r} in expression {' '.join(self.t)}")
+
+
+def parse(toks):
+    p = P(toks)
+    a = p.expr()
+    if p.i != len(toks):
+        raise ExtractError(f"trailing tokens in expression {' '.join(toks)} at {p.i}")
+    return a
+
+# ---------------------------------------------------------------- printing as Lean
+
+CONSTS = {"ARCHETYPE_ID_BITS", "FREE_BIT", "FREE_LIST_END", "MAX_DATA_CAPACITY", "MAX_DATA_INDEX"}
+TYBITS = {"u8": 8, "ArchetypeId": 8, "u32": 32, "u64": 64, "usize": 64}
+
+
+def lean(a, width, names):
+    k = a[0]
+    if k == "lit":
+        return str(a[1])
+    if k == "var":
+        if a[1] in CONSTS:
+            return a[1]
+        if a[1] in names:
+            return names[a[1]]
+        raise ExtractError(f"unknown name {a[1]} in expression")
+    if k == "field":
+        base = a[1]
+        if base == ("var", "self") and a[2] in names:
+            return names[a[2]]
+        raise ExtractError(f"unknown field access .{a[2]}")
+    if k == "as":
+        inner = lean(a[2], width, names)
+        bits = TYBITS.get(a[1])
+        if bits is None:
+            raise ExtractError(f"unknown cast target {a[1]}")
+        return inner if bits >= width else f"({inner} % {2 ** bits})"
+    if k == "not":
+        return f"({2 ** width - 1} - {lean(a[1], width, names)})"
+    if k == "bin":
+        op, l, r = a[1], lean(a[2], width, names), lean(a[3], width, names)
+        if op == "<<":
+            return f"(({l} <<< {r}) % {2 ** width})"
+        if op in ("+", "*"):
+            return f"(({l} {op} {r}) % {2 ** width})"
+        m = {">>": ">>>", "|": "|||", "&": "&&&", "^": "^^^", "-": "-"}
+        if op in m:
+            return f"({l} {m[op]} {r})"
+        if op in ("==", "!=", "<", ">", "<=", ">="):
+            return f"(decide ({l} {'≠' if op == '!=' else '=' if op == '==' else op.replace('<=', '≤').replace('>=', '≥')} {r}))"
+    raise ExtractError(f"cannot print {a!r}")
+
+
+def extract_exprs():
+    ent = tokenize(read("src/entity.rs"))
+    slot = tokenize(read("src/archetype/slot.rs"))
+    idx = tokenize(read("src/index.rs"))
+    out = []
+
+    def only(gen, what):
+        l = list(gen)
+        if len(l) != 1:
+            raise ExtractError(f"{what}: expected exactly one impl block, found {len(l)}")
+        return l[0]
+
+    def add(name, params, ty, width, get_toks, names, doc):
+        # an expression that is not found / not recognised any more (a refactoring) must break only
+        # ITS tie theorem, not the whole translation: it is emitted as a default value with the reason
+        try:
+            toks = get_toks()
+            ast = parse(toks)
+            out.append((name, params, ty, lean(ast, width, names), " ".join(toks), doc))
+        except (ExtractError, IndexError, ValueError, KeyError) as e:
+            out.append((name, params, ty, "0" if ty == "Nat" else "false", f"NOT RECOGNISED: {e}", doc))
+
+    inh = lambda T: (lambda h: h == ["impl", T])
+
+    def in_fn(toks, header_pred, what, fn, getter):
+        lo, hi = only(impl_blocks(toks, header_pred), what)
+        b = fn_body(toks, lo, hi, fn)
+        return getter(b[0], b[1])
+
+    # entity.rs: key packing / unpacking / hashing
+    for T, idxname, pre in (("EntityAny", "slot_index", "entityAny"), ("EntityDirectAny", "dense_index", "entityDirectAny")):
+        add(pre + "NewKey", f"({idxname} archetype_id : Nat)", "Nat", 32,
+            lambda T=T: in_fn(ent, inh(T), f"impl {T}", "new", lambda lo, hi: let_init(ent, lo, hi, "key")),
+            {idxname: idxname, "archetype_id": "archetype_id"}, f"src/entity.rs `{T}::new`: `let key = …;`")
+        add(pre + "ArchetypeId", "(key : Nat)", "Nat", 32,
+            lambda T=T: in_fn(ent, inh(T), f"impl {T}", "archetype_id", lambda lo, hi: tail_expr(ent, lo, hi)),
+            {"key": "key"}, f"src/entity.rs `{T}::archetype_id`")
+        add(pre + "Index", "(key : Nat)", "Nat", 32,
+            lambda T=T, f=idxname: in_fn(ent, inh(T), f"impl {T}", f, lambda lo, hi: call_arg(ent, lo, hi, ["TrimmedIndex", "::", "new_u32"])),
+            {"key": "key"}, f"src/entity.rs `{T}::{idxname}`: the argument of `TrimmedIndex::new_u32`")
+
+        def hash_word(T=T):
+            def g(lo, hi):
+                hi_w = let_init(ent, lo, hi, "index")
+                lo_w = let_init(ent, lo, hi, "version")
+                if [t for t in hi_w if t not in ("(", ")")] != ["self", ".", "key", ".", "into"] or "version" not in lo_w:
+                    raise ExtractError(f"Hash for {T}: the two hashed words are not `self.key` and the version")
+                return let_init(ent, lo, hi, "combined")
+            return in_fn(ent, lambda h: h == ["impl", "Hash", "for", T], f"impl Hash for {T}", "hash", g)
+        add(pre + "HashWord", "(index version : Nat)", "Nat", 64, hash_word, {"index": "index", "version": "version"},
+            f"src/entity.rs `Hash for {T}`: `let combined = …;` over `index = self.key`, `version = self.version`")
+    # slot.rs: SlotIndex encoding
+    S = lambda fn, getter: (lambda: in_fn(slot, inh("SlotIndex"), "impl SlotIndex", fn, getter))
+    add("slotNewFree", "(index : Nat)", "Nat", 32, S("new_free", lambda lo, hi: call_arg(slot, lo, hi, ["Self"])), {"index": "index"}, "src/archetype/slot.rs `SlotIndex::new_free`: the stored word")
+    add("slotNewData", "(index : Nat)", "Nat", 32, S("new_data", lambda lo, hi: call_arg(slot, lo, hi, ["Self"])), {"index": "index"}, "src/archetype/slot.rs `SlotIndex::new_data`: the stored word")
+    add("slotIsFree", "(x : Nat)", "Bool", 32, S("is_free", lambda lo, hi: tail_expr(slot, lo, hi)), {"0": "x"}, "src/archetype/slot.rs `SlotIndex::is_free`")
+    add("slotIsFreeEnd", "(x : Nat)", "Bool", 32, S("is_free_end", lambda lo, hi: tail_expr(slot, lo, hi)), {"0": "x"}, "src/archetype/slot.rs `SlotIndex::is_free_end`")
+    add("slotIndexFree", "(x : Nat)", "Nat", 32, S("index_free", lambda lo, hi: call_arg(slot, lo, hi, ["TrimmedIndex", "::", "new_u32"])), {"0": "x"}, "src/archetype/slot.rs `SlotIndex::index_free`: the argument of `TrimmedIndex::new_u32`")
+    add("slotIndexData", "(x : Nat)", "Nat", 32, S("index_data", lambda lo, hi: call_arg(slot, lo, hi, ["TrimmedIndex", "::", "new_u32"])), {"0": "x"}, "src/archetype/slot.rs `SlotIndex::index_data`: the argument of `TrimmedIndex::new_u32`")
+    # index.rs: range of a TrimmedIndex
+    for fnn in ("new_u32", "new_usize"):
+        add("trimmed" + fnn.title().replace("_", ""), "(index : Nat)", "Bool", 64,
+            lambda fnn=fnn: in_fn(idx, inh("TrimmedIndex"), "impl TrimmedIndex", fnn, lambda lo, hi: match_scrutinee(idx, lo, hi)),
+            {"index": "index"}, f"src/index.rs `TrimmedIndex::{fnn}`: the condition under which `Some` is returned")
+    lines = ["/- GENERATED by tools/extract.py from /repo/src/{entity.rs, archetype/slot.rs, index.rs} on every run. Do not edit.",
+             "   Small pure expressions of the handle / slot encoding, translated token by token (Rust operator",
+             "   precedence, machine width explicit: `<<` `+` `*` truncate, `!` complements within the width, `as u8` is `% 256`).",
+             "   Tie theorems: Gecs/Lemmas/GenExprs.lean. -/",
+             "import Gecs.Gen.Consts", "", "namespace Gecs.Gen", ""]
+    for (name, params, ty, body, src, doc) in out:
+        lines.append(f"/-- {doc}: `{src}` -/")
+        lines.append(f"def {name} {params} : {ty} := {body}")
+        lines.append("")
+    lines.append("end Gecs.Gen")
+    lines.append("")
+    return "\n".join(lines)
+
+
 def main():
     os.makedirs(GEN, exist_ok=True)
     try:
         files = {"Consts.lean": extract_consts(), "Tokens.lean": extract_tokens(), "Fields.lean": extract_fields()}
         files["FieldsAst.lean"] = fields_ast(_FIELD_ROWS)
+        files["Exprs.lean"] = extract_exprs()
         sig_text, sig_rows = extract_sigs()
         ref_rows = extract_ref_impls()
         sig_text = sig_text.replace("\nend Gecs.Gen\n", "\n/-- reference-to-reference conversion impls of src/** (header, is the produced reference tied to the\nconsumed one by the same named lifetime?) -/\ndef refImpls : List (String × Bool) := [\n"
